@@ -3,6 +3,7 @@
 
 class Theory:
     COMPS = []
+    NO_TERM_COMPS = False
 
     def accept_varargs(self, ex):
         return False
